@@ -3,7 +3,7 @@
    Main result [eval_nodeset_sorted]: every node-set value produced by [eval] - for any expression, any context,
    any tree whose ids are the document positions, and any setting of the as-coded switches except the one that
    models the duplicate insertion of moveto_node_alldesc_child() - is strictly increasing in document order, hence
-   duplicate free. Further: laws of the union, predicates, "//", and the key predicate that the hash fast path of the
+   duplicate free. Further: laws of the union, predicates, '//', and the key predicate that the hash fast path of the
    code has to agree with. *)
 From Coq Require Import QArith.
 From LY Require Import Base XPathConv XPathTree XPathSem.
@@ -503,7 +503,7 @@ Proof.
   unfold cands. rewrite HF. reflexivity.
 Qed.
 
-(* "//" is short for /descendant-or-self::node()/  (XPath 1.0 section 2.5) *)
+(* '//' is short for /descendant-or-self::node()/  (XPath 1.0 section 2.5) *)
 Theorem descendant_or_self_decomposes t cx base ax nt S0 : wf_tree t ->
   is_ns_axis ax = false -> is_attr_axis ax = false ->
   eval spec_flags t cx base = Ok (VSet S0) ->
